@@ -1218,7 +1218,11 @@ impl Sim {
             let msg = crate::last_panic();
             self.viol("C01", "pass_panicked", class.clone(), format!("backward panicked on an accepted program: {}", msg));
             if class.contains("broadcast") {
-                self.viol("C03", "pass_panicked", class, format!("backward panicked while reducing a broadcast adjoint: {}", msg));
+                self.viol("C03", "pass_panicked", class.clone(), format!("backward panicked while reducing a broadcast adjoint: {}", msg));
+            }
+            if pi.custom_nodes > 0 {
+                // the derivative closures of the user nodes of this graph were not all invoked exactly once
+                self.viol("C11", "pass_panicked", class, format!("backward panicked on a graph with {} user operation nodes: {}", pi.custom_nodes, msg));
             }
             self.dead = true;
             self.passes.push(pi);
